@@ -75,6 +75,8 @@ def explore(world0, name='', max_states=200000, max_seconds=600.0, max_depth=400
             witness_labels=(), max_witnesses=3000):
     '''Depth-first search with state matching.  Returns a Result.'''
     t0 = time.time()
+    if os.environ.get('VERIF_FAST_FAIL'):
+        stop_on_violation = True
     res = Result(name)
     rnd = random.Random(seed)
     with _Quiet():
